@@ -340,8 +340,8 @@ def k6_single_value_writer(core, rep):
     s = core.solver
     af = s.attempt
     stores = [x for x in _subscript_stores(core, s.value_store) if x[0] == s.rel]
-    if not stores:
-        raise AnalysisError('no write to the value store found in the solver (anchor vanished)')
+    if not rep.ob('K6', 'a-value-is-stored', bool(stores), f'nothing in the solver stores a computed value into self.{s.value_store}', _w(af)):
+        return
     field_param = af.node.args.args[1].arg
     for rel, fn, st, t in stores:
         key = f'{fn.name if fn else "<module>"}@{unparse(st, 80)}'
@@ -413,8 +413,9 @@ def k8_input_store_writes(core, rep):
     s = core.solver
     ai = core.func(s.rel, s.name, '_attempt_input')
     stores = [x for x in _subscript_stores(core, s.input_store) if x[0] == s.rel]
-    if not stores:
-        raise AnalysisError('no write to the input store found in the solver (anchor vanished)')
+    if not rep.ob('K8', 'answer-written-into-the-input-store', bool(stores),
+                  f'nothing in the solver writes a prompted answer into the input store self.{s.input_store}: the answer is neither seen by the lines through the validation gate nor written back', _w(ai)):
+        return
     g = ai.cfg
     # the prompt call and the names it binds
     pc = [n for n in ast.walk(ai.node) if isinstance(n, ast.Assign) and isinstance(n.value, ast.Call) and self_attr(n.value.func) == s.prompt]
@@ -755,6 +756,14 @@ def k11_input_gate(core, rep):
             hs_ok = all(len(h.body) == 1 and isinstance(h.body[0], ast.Return) and _const(h.body[0].value, False) for h in hs)
             rep.ob('K11c', f'{name}.valid/consults-value', bool(calls_value) and hs_ok and not any(_const(r.value, True) and r is m.body[0] for r in rets),
                    f'{name}.valid() does not go through its own value() conversion (or accepts without looking)', f'{ci.rel}:{m.lineno}')
+            # sibling agreement: every lookup that can fail in this class's value() is also tried, under a False-returning handler, in valid()
+            if 'value' in ci.methods:
+                for sub in [x for x in ast.walk(ci.methods['value']) if isinstance(x, ast.Subscript) and attr_text(x.value) and attr_text(x.value).startswith('self.')]:
+                    txt = unparse(sub)
+                    tried = [t for t in ast.walk(m) if isinstance(t, ast.Try) and any(unparse(x) == txt for b in t.body for x in ast.walk(b))
+                             and all(len(h.body) == 1 and isinstance(h.body[0], ast.Return) and _const(h.body[0].value, False) for h in t.handlers)]
+                    rep.ob('K11c', f'{name}.valid/tries:{txt}', bool(tried),
+                           f'{name}.value() performs the lookup {txt}, which can fail, but {name}.valid() does not try it: valid() and value() disagree', f'{ci.rel}:{m.lineno}')
         if 'value' in ci.methods and name != 'Input':
             m = ci.methods['value']
             # conversion failures must surface as ValueError (what valid() catches) or KeyError handled by the class's own valid
@@ -961,8 +970,10 @@ def k20_ctrl_c(core, rep):
     g = ai.cfg
     pc = next((n for n in g.nodes if n.kind == 'stmt' and isinstance(n.ast, ast.Assign) and isinstance(n.ast.value, ast.Call) and self_attr(n.ast.value.func) == s.prompt), None)
     store = next((n for n in g.nodes if n.kind == 'stmt' and isinstance(n.ast, ast.Assign) and isinstance(n.ast.targets[0], ast.Subscript) and self_attr(n.ast.targets[0].value) == s.input_store), None)
-    if pc is None or store is None:
-        raise AnalysisError('_attempt_input: prompt call or store not found')
+    if pc is None:
+        raise AnalysisError('_attempt_input: prompt call not found')
+    if not rep.ob('K20', 'answer-stored', store is not None, '_attempt_input() does not store the answer in the input store: an interruption loses it', _w(ai)):
+        return
     between = [n for n in g.nodes if n.kind == 'stmt' and n not in (pc, store) and g.dominates(pc, n) and g.dominates(n, store)]
     ok = all(isinstance(n.ast, ast.Assert) for n in between)
     rep.ob('K20', 'answer-stored-immediately', ok, f'between receiving an answer and storing it _attempt_input() does more than assert validity: {[unparse(n.ast, 50) for n in between]}', _w(ai))
